@@ -45,6 +45,8 @@ Definition check_case (c : list Q * option (list Z) * list Q * res xval) : bool 
             [[0.5, 2.0, -0.5], [1.0, 1.0, 1.0]],        # float comparisons: >= 0 is all that is asked
             [[1.0, -1.0], [1.0]], [[1.0], [-1.0, 1.0]],  # mismatch is reported before negativity
             [[-1.0, 1.0], [0.0, 0.0]],
+            [[1.0, 0.0], [2.0 ** -40, 3 * 2.0 ** -40]], [[1.0, 1.0], [2.0 ** -60, 2.0 ** -61]], [[1.0, 0.0, -1.0], [2.0 ** -100, 2.0 ** -100, 1.0]],
+            [[1.0, 0.0], [2.0 ** 60, 2.0 ** 60]],      # weights whose total is tiny (but not 0) or huge
         ]
         return ex
 
@@ -71,6 +73,9 @@ Definition check_case (c : list Q * option (list Z) * list Q * res xval) : bool 
                 w = [lat(rng) for _ in range(rng.choice([j for j in range(0, 9) if j != k]))]
                 if w and rng.random() < 0.3:
                     w[0] = -1.0
+            if rng.random() < 0.2:    # all weights on a very different scale (tiny durations, huge durations): exact power-of-two factors
+                f = 2.0 ** rng.choice([-20, -30, -40, -60, -100, 30, 60])
+                w = [x * f for x in w]
             out.append([c, w])
         return out
 
